@@ -637,8 +637,7 @@ fn twin_positions(src: &str, rng: &mut Rng, cap: usize) -> Vec<(u32, u32)> {
     offs.into_iter().map(|o| line_col_of(src, o)).collect()
 }
 
-/// (start, end, node kind, type, name as the TAST spells it) of every variable, binder and closure parameter that
-/// carries a source pointer
+/// (start, end, node kind, type, name as the TAST spells it; "" for expression entries)
 pub(crate) fn collect_tast(file: &tast::File) -> Vec<(u32, u32, &'static str, String, String)> {
     fn pat(p: &tast::Pat, out: &mut Vec<(u32, u32, &'static str, String, String)>) {
         match p {
@@ -654,13 +653,13 @@ pub(crate) fn collect_tast(file: &tast::File) -> Vec<(u32, u32, &'static str, St
     /// the initialiser `e` of a `let` and the sub-expressions reached from it through forms whose TAST
     /// children are the CST children one to one (call / constructor arguments, tuple and array items,
     /// operands); entry = "<path>\u{1}<type>", path = steps `<tag><index>` resolved by `expr_node_for`
-    fn sub_exprs(e: &tast::Expr, path: String, depth: usize, at: (u32, u32), out: &mut Vec<(u32, u32, &'static str, String)>) {
+    fn sub_exprs(e: &tast::Expr, path: String, depth: usize, at: (u32, u32), out: &mut Vec<(u32, u32, &'static str, String, String)>) {
         use tast::Expr::*;
         let e: &tast::Expr = match e {
             EToDyn { expr: inner, .. } => inner,
             v => v,
         };
-        out.push((at.0, at.1, "let-value", format!("{}\u{1}{}", path, e.get_ty().to_pretty(80))));
+        out.push((at.0, at.1, "let-value", format!("{}\u{1}{}", path, e.get_ty().to_pretty(80)), String::new()));
         if depth >= 4 {
             return;
         }
@@ -678,7 +677,6 @@ pub(crate) fn collect_tast(file: &tast::File) -> Vec<(u32, u32, &'static str, St
             sub_exprs(k, format!("{}/{}{}.{}", path, tag, i, n), depth + 1, at, out);
         }
     }
-    fn expr(e: &tast::Expr, out: &mut Vec<(u32, u32, &'static str, String)>) {
     fn expr(e: &tast::Expr, out: &mut Vec<(u32, u32, &'static str, String, String)>) {
         use tast::Expr::*;
         match e {
@@ -712,7 +710,7 @@ pub(crate) fn collect_tast(file: &tast::File) -> Vec<(u32, u32, &'static str, St
             EMatch { expr: s, arms, astptr, ty } => {
                 if let Some(ptr) = astptr {
                     let r = ptr.text_range();
-                    out.push((r.start().into(), r.end().into(), "expr-node", ty.to_pretty(80)));
+                    out.push((r.start().into(), r.end().into(), "expr-node", ty.to_pretty(80), String::new()));
                 }
                 expr(s, out);
                 for a in arms {
@@ -733,7 +731,7 @@ pub(crate) fn collect_tast(file: &tast::File) -> Vec<(u32, u32, &'static str, St
             EField { expr: x, astptr, ty, .. } => {
                 if let Some(ptr) = astptr {
                     let r = ptr.text_range();
-                    out.push((r.start().into(), r.end().into(), "expr-node", ty.to_pretty(80)));
+                    out.push((r.start().into(), r.end().into(), "expr-node", ty.to_pretty(80), String::new()));
                 }
                 expr(x, out)
             }
@@ -1134,7 +1132,7 @@ fn run_text(th: usize, ti: usize, t: &Text, dir: &Path, watch: &Watch, sh: &Shar
             let mut heads: Vec<(u32, String, String, String)> = Vec::new();
             let mut seen_head = HashSet::new();
             let hroot = MySyntaxNode::new_root(parser::parse(&path, src).green_node);
-            for (s, e, kind, ty) in collect_tast(&comp.tast) {
+            for (s, e, kind, ty, _name) in collect_tast(&comp.tast) {
                 if kind == "let-value" || kind == "expr-node" {
                     let (path, ty) = match ty.split_once('\u{1}') {
                         Some((p, t)) => (p.to_string(), t.to_string()),
@@ -1150,7 +1148,6 @@ fn run_text(th: usize, ti: usize, t: &Text, dir: &Path, watch: &Watch, sh: &Shar
                     }
                     continue;
                 }
-            for (s, e, kind, ty, _name) in collect_tast(&comp.tast) {
                 if (e as usize) > src.len() || !seen.insert((s, e)) {
                     continue;
                 }
